@@ -1298,6 +1298,16 @@ static void gen_scn(hctx* h) {
             q.scn = SCN_BATCH; enumerate(h, q, 0);
         } else fprintf(h->out, "#stat prepare_failed_multipage 1\n");
     }
+    /* many pages per chunk consumed by ONE read_batch: the reader's retired-page list (BYTE_ARRAY pages stay alive
+     * until the next call) grows from 4 to 8 entries on the sixth page, a realloc with live entries behind it */
+    {
+        scn_params q = p; q.codec = h_chance(h, 1, 2) ? 1 : 0; q.rg = 1; q.nb = 8 + (int)h_below(h, 3); q.rows = 4 * q.nb + (int)h_below(h, 9);
+        if (prepare_input(h, &q)) {
+            q.mode = (int)h_below(h, 3);
+            q.scn = SCN_READ; enumerate(h, q, 0);
+            if (h->thorough) { q.mode = (q.mode + 1) % 3; enumerate(h, q, 0); q.scn = SCN_BATCH; enumerate(h, q, 0); }
+        } else fprintf(h->out, "#stat prepare_failed_manypages 1\n");
+    }
     /* long column names and more row groups: the writer's metadata arena really needs further blocks,
      * at a site that depends on the name length */
     {
